@@ -9,14 +9,14 @@ From stdpp Require Import gmap.
 From Coq Require Import Lia.
 
 (** the C string held in a block *)
-Definition str_of (S : gmap positive bytes) (p : ptr) : option bytes :=
+Definition cstr_of (S : gmap positive bytes) (p : ptr) : option bytes :=
   match p with None => None | Some b => cstr <$> (S !! b) end.
 
 (** a forest tree as a value: the fields of every node, strings read from the string blocks [S] *)
 Fixpoint reify (S : gmap positive bytes) (t : tree) : Tree.node :=
   match t with
   | T _ d cs =>
-      Tree.Node (rd_type d) (str_of S (rd_vstr d)) (rd_vint d) (rd_vdbl d) (str_of S (rd_key d)) (map (reify S) cs)
+      Tree.Node (rd_type d) (cstr_of S (rd_vstr d)) (rd_vint d) (rd_vdbl d) (cstr_of S (rd_key d)) (map (reify S) cs)
   end.
 
 Fixpoint clear_refs (n : Tree.node) : Tree.node :=
@@ -31,7 +31,7 @@ Proof.
   cbn [app cstr]. rewrite E. by rewrite IH.
 Qed.
 
-Lemma str_copy_str_of h b b' : str_copy h b b' -> str_of (h_str h) (Some b') = str_of (h_str h) (Some b).
+Lemma str_copy_str_of h b b' : str_copy h b b' -> cstr_of (h_str h) (Some b') = cstr_of (h_str h) (Some b).
 Proof. intros (s & [_ H1] & [_ H2]). cbn. rewrite H1, H2. cbn. by rewrite cstr_cstr_app. Qed.
 
 Lemma copy_reify h t : forall tc, copy_of h t tc -> reify (h_str h) tc = clear_refs (reify (h_str h) t).
